@@ -123,10 +123,10 @@ RS="oidc.redisStore."
 METHS=["SetTokenResponse","GetTokenResponse","SetAuthorizationState","GetAuthorizationState","ClearAuthorizationState","RemoveSession"]
 P['C12']={
  "refines":[MS+m for m in METHS]+[RS+m for m in METHS],
- "functions":["oidc.NewRedisStore"],
+ "functions":["oidc.NewRedisStore"]+[RS+m for m in METHS],
  "sweep":["oidc.init"],
  "lemmas":["L-onlysid-ext"],
- "required":[RS+"GetTokenResponse:refine:SessionStore.GetTokenResponse.got", RS+"GetAuthorizationState:refine:SessionStore.GetAuthorizationState.got", RS+"SetTokenResponse:refine:SessionStore.SetTokenResponse.ok", RS+"SetAuthorizationState:refine:SessionStore.SetAuthorizationState.ok", RS+"RemoveSession:refine:SessionStore.RemoveSession.ok", RS+"ClearAuthorizationState:refine:SessionStore.ClearAuthorizationState.ok", RS+"SetTokenResponse:refine:repinv.dbwf", RS+"SetTokenResponse:refine:SessionStore.SetTokenResponse.frame_pw", "oidc.init:post:pkginv.rediskeys", "oidc.NewRedisStore:post:fields",
+ "required":[RS+"GetTokenResponse:refine:SessionStore.GetTokenResponse.got", RS+"GetAuthorizationState:refine:SessionStore.GetAuthorizationState.got", RS+"SetTokenResponse:refine:SessionStore.SetTokenResponse.ok", RS+"SetAuthorizationState:refine:SessionStore.SetAuthorizationState.ok", RS+"RemoveSession:refine:SessionStore.RemoveSession.ok", RS+"ClearAuthorizationState:refine:SessionStore.ClearAuthorizationState.ok", RS+"SetTokenResponse:refine:repinv.dbwf", RS+"SetTokenResponse:refine:SessionStore.SetTokenResponse.frame_pw", "oidc.init:post:pkginv.rediskeys", "oidc.NewRedisStore:post:fields", RS+"SetTokenResponse:post:faults_reported", RS+"GetTokenResponse:post:faults_reported",
  MS+"GetTokenResponse:refine:SessionStore.GetTokenResponse.got", MS+"SetTokenResponse:refine:SessionStore.SetTokenResponse.ok", MS+"RemoveSession:refine:SessionStore.RemoveSession.ok", MS+"ClearAuthorizationState:refine:SessionStore.ClearAuthorizationState.ok", MS+"SetTokenResponse:refine:repinv.distinct", MS+"GetTokenResponse:pre@call:sync.Mutex.Lock.not_held"],
  "note":"both stores: every method refines the abstract-map contract of SessionStore under the abstraction MemView, keeps the representation invariants, and acquires / releases the store mutex exactly once around its accesses"}
 P['C10']={
